@@ -131,6 +131,26 @@ func checkC17(ix *index, add addFn) {
 			if nilOK {
 				continue
 			}
+			// a message the client acknowledged (or tried to) was read off the wire:
+			// its hand-over comes first, whatever happened to the link since
+			if msg.QoS > 0 {
+				ackT := TPubAck
+				if msg.QoS == 2 {
+					ackT = TPubComp
+				}
+				acked := false
+				for j := i; j < len(ix.tr) && j < ix.end(); j++ {
+					q := &ix.tr[j]
+					if (q.Kind == "tx" || q.Kind == "txfail") && q.Conn == r.Conn && q.P != nil && q.P.Type == ackT && q.P.ID == msg.ID {
+						acked = true
+						break
+					}
+				}
+				if acked {
+					add("handed-over", fmt.Sprintf("inbound message %q (q%d) on conn %d was acknowledged by the client but handed to no handler", msg.Pay, msg.QoS, r.Conn), map[string]string{"kind": "acked-not-handed"})
+					continue
+				}
+			}
 			// the connection may have been cut in the very step of the delivery
 			cutSame := false
 			for j := i; j < len(ix.tr) && ix.tr[j].T == r.T; j++ {
